@@ -159,6 +159,9 @@ func cmdSeeds(dir string) {
 	if v := os.Getenv("C02_MAXMLEN"); v != "" {
 		lim.MaxMLen, _ = strconv.Atoi(v)
 	}
+	if v := os.Getenv("C02_BIGMLEN"); v != "" {
+		lim.BigMLen, _ = strconv.Atoi(v)
+	}
 	seeds, err := mutate.BuildSeeds(lim)
 	if err != nil {
 		vio.Fatal(err)
